@@ -31,6 +31,8 @@ def literals():
     add('number', N.num(5.0), N.num(4.0), N.num(6.0))
     add('number-neg-frac', N.num(-1.5), N.num(-2.5), N.num(0.0))
     add('quantity', N.num(5.0, 'kg'), N.num(4.0, 'kg'), N.num(6.0, 'kg'))
+    add('quantity-negative', N.num(-5.0, 'kW'), N.num(-6.0, 'kW'), N.num(-4.0, 'kW'))
+    add('quantity-neg-frac-nonascii-unit', N.num(-0.5, u'\xb0C'), N.num(-1.5, u'\xb0C'), N.num(0.5, u'\xb0C'))
     add('str', s('m'), s('l'), s('n'), other=N.num(7.0))
     add('str-escapes', s('a"b\\c\nd'), s('a"b\\c\nc'), s('a"b\\c\ne'), other=N.num(7.0))
     add('str-unicode', s(u'é'), s(u'è'), s(u'ê'), other=N.num(7.0))
@@ -539,6 +541,28 @@ def index_aliasing_checks(st):
             if got != want:
                 st.fail('filter-changed-what-the-source-grid-answers', dict(sig, lookup=str([k for k, a, b in zip(keys, got, want) if a != b][0])), case,
                         {'filter': text, 'before': str(want), 'after': str(got)})
+            # a full-length slice taken from the indexed source is a grid of its own: rows appended to EITHER later are not
+            # reachable through the other (lookups, and reference-following filters)
+            sl = g[:]
+            g.append({'id': 'late-src', 'x': hs.MARKER, 'tgt': hs.MARKER})
+            sl.append({'id': 'late-slice', 'y': hs.MARKER, 'tgt': hs.MARKER})
+            g.append({'id': 'p1', 'r': hs.Ref('late-slice')})
+            sl.append({'id': 'p2', 'r': hs.Ref('late-src')})
+            leaks = []
+            for name, grid, foreign, own in (('source', g, 'late-slice', 'late-src'), ('slice', sl, 'late-src', 'late-slice')):
+                try:
+                    if grid.get(foreign) is not None:
+                        leaks.append('%s.get(%r) finds a row of the other grid' % (name, foreign))
+                    if grid.get(own) is None:
+                        leaks.append('%s.get(%r) misses its own row' % (name, own))
+                    sel = [r.get('id') for r in grid.filter('r->tgt')]
+                    if sel:
+                        leaks.append('%s: r->tgt follows a reference into the other grid: %r' % (name, sel))
+                except Exception as e:  # noqa
+                    leaks.append('%s raised %s' % (name, type(e).__name__))
+            st.count('executions')
+            if leaks:
+                st.fail('source-and-derived-grid-share-lookup-state', dict(sig, derived='full-slice'), case, {'filter': text, 'leaks': leaks[:4]})
             res = out[1]
             mine = list(res)
             for k in keys:
